@@ -66,7 +66,8 @@ func modelledWrites(ws []fieldWrite) []string {
 
 var textPool = map[string][]string{
 	"lit":     {`plain`, `ab`, `x1`, `it's`},
-	"esc":     {`a\\.b`, `\\[x\\]`, `\\^x`, `a\\+b`, `a\\|b`},
+	"esc":     {`a\\.b`, `\\^x`, `a\\+b`, `a\\|b`},
+	"escl":    {`\\[x\\]`},
 	"escfix":  {`a\\-b`, `100\\%`},
 	"fold":    {`(?i)ab`, `(?i)plain`},
 	"foldesc": {`(?i)a\\.b`},
@@ -156,9 +157,13 @@ func (r *runner) runCases(path string) {
 		s *spec
 	}
 	var all []conc
+	n := 0
 	for _, q := range qs {
 		for _, s := range r.concretise(q) {
-			all = append(all, conc{q, s})
+			if r.mine(n) {
+				all = append(all, conc{q, s})
+			}
+			n++
 		}
 	}
 	r.res.Stats["case_classes"] = len(qs)
@@ -212,7 +217,7 @@ func (r *runner) runCases(path string) {
 		for _, j := range order {
 			c := pair[j]
 			k := ks[j]
-			a := subs[j].process(r.x, wins[k], k+1, true)
+			a := r.proc(c.s, subs[j], wins[k], k+1, true)
 			v := r.x.compareArms(a, fresh[j][k])
 			div := v.Class == "MEANING" || v.Class == "ERROR"
 			name := fmt.Sprintf("%s %s %s %s", c.q.Kind, c.q.Op, c.q.Text, c.q.Attr)
